@@ -54,13 +54,9 @@ func has(l []string, s string) bool {
 	return false
 }
 
-func noProgressEdge(info *types.Info, b *cfg.Block, succ int, binds pat.Binds) bool {
-	c := cfgq.CondOf(b)
-	if c == nil {
-		return false
-	}
+func noProgressEdge(g *cfgq.Graph, info *types.Info, b *cfg.Block, succ int, binds pat.Binds) bool {
 	gotN, gotErr := false, false
-	for _, f := range cfgq.Facts(c, succ == 0) {
+	for _, f := range g.EdgeFacts(b, succ) {
 		if pat.Expr("_n != 0").Match(info, f.Expr, binds) != nil && !f.Val || pat.Expr("_n == 0").Match(info, f.Expr, binds) != nil && f.Val {
 			gotN = true
 		}
@@ -84,7 +80,7 @@ func Run(c *core.Ctx) {
 
 	// ---- R1
 	n := ring.GuardTable(c, "R1.guard", pkg, "Backlog", "mu", []string{"err", "store", "rwait"})
-	if n < 20 {
+	if n < 10 {
 		c.Undecidedf("instances", "R1.guard", token.NoPos, "only %d guarded accesses found, 20+ confirmed by hand", n)
 	}
 	ring.CondOver(c, "R1.cond", pkg, "Backlog", "rwait", "mu")
@@ -206,7 +202,7 @@ func r2write(c *core.Ctx, fn *core.Fn) {
 	sp, _ := g.Find(as)
 	bcast := func(n ast.Node) bool { return has(condCalls(info, n, "Broadcast"), "rwait") }
 	w := g.Path(cfgq.Query{From: sp, After: true, Avoid: bcast, TargetExit: cfgq.NormalExit,
-		AvoidEdge: func(b *cfg.Block, s int) bool { return noProgressEdge(info, b, s, binds) }})
+		AvoidEdge: func(b *cfg.Block, s int) bool { return noProgressEdge(g, info, b, s, binds) }})
 	c.Check("R2.wake", "writeSome/broadcast-on-progress", as.Pos(), w == nil,
 		"every path on which the store accepted bytes or failed must call rwait.Broadcast() before returning: every reader waiting at the write position has to be woken (Signal would wake only one)", w...)
 	// closed / error tests before the store write
@@ -245,7 +241,7 @@ func r2read(c *core.Ctx, fn *core.Fn) {
 	for _, wp := range waits {
 		wn := wp.Node()
 		w1 := g.Path(cfgq.Query{From: g.Entry(), Target: func(n ast.Node) bool { return n == wn },
-			AvoidEdge: func(b *cfg.Block, s int) bool { return noProgressEdge(info, b, s, binds) }})
+			AvoidEdge: func(b *cfg.Block, s int) bool { return noProgressEdge(g, info, b, s, binds) }})
 		c.Check("R2.wake", "readSomeAt/wait-only-without-progress", wn.Pos(), w1 == nil,
 			"Wait must be reachable only when the store returned no bytes and no error (o equals the write position)", w1...)
 		dom, w2 := g.Dominated(wp, func(n ast.Node) bool { return n == ast.Node(as) })
@@ -296,7 +292,7 @@ func r2close(c *core.Ctx, fn *core.Fn) {
 	})
 	w2 := g.Path(cfgq.Query{From: g.Entry(), Avoid: closeCall, TargetExit: cfgq.NormalExit,
 		AvoidEdge: func(b *cfg.Block, s int) bool {
-			return cfgq.EdgeEstablishes(b, s, func(f cfgq.Fact) bool {
+			return g.Establishes(b, s, func(f cfgq.Fact) bool {
 				return pat.Expr("_p.store == nil").Match(info, f.Expr, nil) != nil && f.Val || pat.Expr("_p.store != nil").Match(info, f.Expr, nil) != nil && !f.Val
 			})
 		}})
@@ -407,38 +403,159 @@ func stores(c *core.Ctx, tn string) {
 		c.Check("R5.sibling", tn+".writeSome/closed-store", fn.Decl.Pos(), closedGuard(info, body), "a nil backing store yields ErrClosedBacklog")
 	}
 	if fn := c.Func(pkg, tn, "dataRange"); fn != nil {
-		info := fn.Pkg.TypesInfo
-		g := cfgq.Of(c.Program, fn)
-		// returns: (p.wpos - p.size, p.wpos) only via wpos >= size ; (0, p.wpos) only via !(wpos >= size)
-		full := g.Points(func(n ast.Node) bool { return pat.Stmt("return _p.wpos - _p.size, _p.wpos").Match(info, n, nil) != nil })
-		part := g.Points(func(n ast.Node) bool { return pat.Stmt("return 0, _p.wpos").Match(info, n, nil) != nil })
-		c.Check("R4.range", tn+".dataRange/returns", fn.Decl.Pos(), len(full) == 1 && len(part) == 1,
-			"dataRange returns (wpos-size, wpos) and (0, wpos): the most recent min(total, capacity) bytes")
-		ge := func(val bool) func(cfgq.Fact) bool {
-			return func(f cfgq.Fact) bool {
-				return pat.Expr("_p.wpos >= _p.size").Match(info, f.Expr, nil) != nil && f.Val == val || pat.Expr("_p.wpos < _p.size").Match(info, f.Expr, nil) != nil && f.Val != val
-			}
-		}
-		for _, p := range full {
-			ok, w := g.OnlyViaFact(p, ge(true))
-			c.Check("R4.range", tn+".dataRange/wrapped-guard", p.Node().Pos(), ok, "(wpos-size, wpos) is returned only when wpos >= size (otherwise the subtraction wraps around)", w...)
-		}
-		for _, p := range part {
-			ok, w := g.OnlyViaFact(p, ge(false))
-			c.Check("R4.range", tn+".dataRange/unwrapped-guard", p.Node().Pos(), ok, "(0, wpos) is returned only while wpos < size (afterwards the oldest bytes are gone)", w...)
-		}
-		// any other return must be the closed-store (0,0)
-		for _, p := range g.Points(func(n ast.Node) bool { _, ok := n.(*ast.ReturnStmt); return ok }) {
-			n := p.Node()
-			if pat.Stmt("return _p.wpos - _p.size, _p.wpos").Match(info, n, nil) != nil || pat.Stmt("return 0, _p.wpos").Match(info, n, nil) != nil || pat.Stmt("return 0, 0").Match(info, n, nil) != nil {
-				continue
-			}
-			c.Failf("R4.range", tn+".dataRange/other-return", n.Pos(), "dataRange returns `%s`, which is not a range of the most recent bytes", c.Src(n))
-		}
+		dataRange(c, tn, fn)
 	}
 	if fn := c.Func(pkg, tn, "close"); fn != nil {
 		n, _ := pat.Stmt("_p._store = nil").Find(fn.Pkg.TypesInfo, fn.Decl.Body, nil)
 		c.Check("R5.sibling", tn+".close/drops-store", fn.Decl.Pos(), n != nil, "close drops the backing store so that readers woken by the close fail with ErrClosedBacklog")
+	}
+}
+
+// dataRange checks R4 for one store. Accepted shapes (in the method itself or
+// in a same-package helper it returns through, with the helper's parameters
+// bound to the arguments):
+//   two returns:   if wpos >= size { return wpos - size, wpos }; return 0, wpos
+//   one return:    r := 0; if wpos >= size { r = wpos - size }; return r, wpos
+func dataRange(c *core.Ctx, tn string, fn *core.Fn) {
+	info := fn.Pkg.TypesInfo
+	key := tn + ".dataRange"
+	type target struct {
+		fn   *core.Fn
+		g    *cfgq.Graph
+		sub  map[types.Object]ast.Expr
+		name string
+	}
+	tg := target{fn: fn, g: cfgq.Of(c.Program, fn), name: "dataRange"}
+	// follow `return helper(args...)`
+	for _, p := range tg.g.Points(func(n ast.Node) bool { _, ok := n.(*ast.ReturnStmt); return ok }) {
+		ret := p.Node().(*ast.ReturnStmt)
+		if len(ret.Results) != 1 {
+			continue
+		}
+		call, ok := ast.Unparen(ret.Results[0]).(*ast.CallExpr)
+		if !ok {
+			continue
+		}
+		f := core.CalleeFunc(info, call)
+		if f == nil || f.Pkg() == nil || f.Pkg().Path() != fn.Pkg.PkgPath {
+			continue
+		}
+		h := c.FnOf(f)
+		if h == nil || h.Decl.Body == nil {
+			continue
+		}
+		sub := map[types.Object]ast.Expr{}
+		i := 0
+		for _, fl := range h.Decl.Type.Params.List {
+			for _, nm := range fl.Names {
+				if i < len(call.Args) {
+					sub[info.Defs[nm]] = call.Args[i]
+				}
+				i++
+			}
+		}
+		tg = target{fn: h, g: cfgq.Of(c.Program, h), sub: sub, name: h.Decl.Name.Name}
+	}
+	S := func(e ast.Expr) ast.Expr { return cfgq.Substitute(info, e, tg.sub) }
+	ge := func(val bool) func(cfgq.Fact) bool {
+		return func(f cfgq.Fact) bool {
+			e := S(f.Expr)
+			return pat.Expr("_p.wpos >= _p.size").Match(info, e, nil) != nil && f.Val == val || pat.Expr("_p.wpos < _p.size").Match(info, e, nil) != nil && f.Val != val
+		}
+	}
+	isFull := func(e ast.Expr) bool { return pat.Expr("_p.wpos - _p.size").Match(info, S(e), nil) != nil }
+	isW := func(e ast.Expr) bool { return pat.Expr("_p.wpos").Match(info, S(e), nil) != nil }
+	isZero := func(e ast.Expr) bool { v, ok := core.IntConst(info, e); return ok && v == 0 }
+	g := tg.g
+	nFull, nPart, nOther := 0, 0, 0
+	okGuards := true
+	var witness []string
+	for _, p := range g.Points(func(n ast.Node) bool { _, ok := n.(*ast.ReturnStmt); return ok }) {
+		ret := p.Node().(*ast.ReturnStmt)
+		if len(ret.Results) != 2 {
+			if len(ret.Results) == 1 && tg.fn == fn {
+				continue // the delegating return itself
+			}
+			nOther++
+			continue
+		}
+		a, b := ret.Results[0], ret.Results[1]
+		switch {
+		case isZero(a) && isZero(b):
+			// closed store
+		case isFull(a) && isW(b):
+			nFull++
+			ok, w := g.OnlyViaFact(p, ge(true))
+			if !ok {
+				okGuards, witness = false, w
+			}
+		case isZero(a) && isW(b):
+			nPart++
+			ok, w := g.OnlyViaFact(p, ge(false))
+			if !ok {
+				okGuards, witness = false, w
+			}
+		case isW(b):
+			// one-return shape: a is a local r with `r := 0` and `r = wpos - size` under wpos >= size
+			id, ok := ast.Unparen(a).(*ast.Ident)
+			if !ok {
+				nOther++
+				continue
+			}
+			obj := core.ObjOf(info, id)
+			okInit, okSet := false, false
+			ast.Inspect(tg.fn.Decl.Body, func(n ast.Node) bool {
+				switch x := n.(type) {
+				case *ast.AssignStmt:
+					for i, l := range x.Lhs {
+						lid, ok := l.(*ast.Ident)
+						if !ok || core.ObjOf(info, lid) != obj || i >= len(x.Rhs) {
+							continue
+						}
+						r := ast.Unparen(x.Rhs[i])
+						if cv, ok := r.(*ast.CallExpr); ok && len(cv.Args) == 1 { // uint64(0)
+							r = ast.Unparen(cv.Args[0])
+						}
+						if isZero(r) {
+							okInit = true
+						} else if isFull(r) {
+							if pt, ok := g.Find(x); ok {
+								if okv, _ := g.OnlyViaFact(pt, ge(true)); okv {
+									okSet = true
+								}
+							}
+						} else {
+							okSet = false
+							nOther++
+						}
+					}
+				case *ast.ValueSpec:
+					for _, nm := range x.Names {
+						if info.Defs[nm] == obj && len(x.Values) == 0 {
+							okInit = true // var r uint64
+						}
+					}
+				}
+				return true
+			})
+			if okInit && okSet {
+				nFull++
+				nPart++
+			} else {
+				nOther++
+			}
+		default:
+			nOther++
+		}
+	}
+	switch {
+	case nOther > 0:
+		c.Undecidedf("R4.range", key+"/returns", fn.Decl.Pos(), "%s has a return this rule does not recognise", tg.name)
+	case nFull == 0 || nPart == 0:
+		c.Check("R4.range", key+"/returns", fn.Decl.Pos(), false, "dataRange must yield (wpos-size, wpos) once wpos >= size and (0, wpos) before: the most recent min(total, capacity) bytes")
+	default:
+		c.Okf("R4.range", key+"/returns", fn.Decl.Pos(), "dataRange yields (wpos-size, wpos) and (0, wpos)")
+		c.Check("R4.range", key+"/guards", fn.Decl.Pos(), okGuards, "(wpos-size, wpos) only when wpos >= size (otherwise the subtraction wraps around), (0, wpos) only while wpos < size (afterwards the oldest bytes are gone)", witness...)
 	}
 }
 
